@@ -313,7 +313,10 @@ Qed.
 Theorem src_checked_reject budget st t :
   ceval budget SZ 0 t (store_of st (h_control st) 0) gen_checked_reject
   = (h_length st <=? hash_st st t) || negb (vget (h_control st) (hash_st st t) =? t).
-Proof. unfold gen_checked_reject, hash_st, hash. cbn. reflexivity. Qed.
+Proof.
+  unfold gen_checked_reject, hash_st, hash. cbn.
+  first [reflexivity | rewrite negb_andb, N.ltb_antisym, negb_involutive; reflexivity].
+Qed.
 
 Theorem src_checked_lookup budget st t :
   checked_lookup st t
